@@ -38,7 +38,7 @@ native_unit("composition_native", "winter-prover", "prover", "native/composition
             timeout=2400, debug_assertions=False)
 
 native_unit("verifier_side_native", "winterfell", "winterfell", "native/verifier_side_bounded.rs", ["C17", "C16", "C06", "C18"],
-            ["verifier::evaluate_constraints (periodic columns at the out-of-domain point, boundary-constraint groups)", "BoundaryConstraintGroup::evaluate_at", "verifier::perform_verification (OOD consistency check)", "Prover::generate_proof", "evaluator::boundary / periodic_table"],
-            "on an AIR with periodic columns of four different cycle lengths (2, 8, 4, trace length), single / periodic / sequence assertions with non-zero first steps and a periodic and a sequence assertion sharing one boundary-constraint group: the verifier's evaluation of the composition at the out-of-domain point agrees with the prover's committed polynomial (every honest proof is accepted after a serialization round trip), and every boundary constraint is enforced (a proof is refused when any single asserted value of the public inputs is changed); a proof whose context claims any other field modulus (lengths 0..254 bytes, the real modulus truncated or zero-extended, one flipped bit) is refused with an error - no panic, no acceptance",
+            ["AcceptableOptions::validate (all three arms)", "verifier::evaluate_constraints (periodic columns at the out-of-domain point, boundary-constraint groups)", "BoundaryConstraintGroup::evaluate_at", "verifier::perform_verification (OOD consistency check)", "Prover::generate_proof", "evaluator::boundary / periodic_table"],
+            "acceptance policy: a proof is accepted under MinConjecturedSecurity / MinProvenSecurity(m) exactly when its own level of that kind is >= m (m around the level, 0, u32::MAX) and under OptionSet(s) exactly when s contains its options (six single-parameter variants, both orders, empty set); on an AIR with periodic columns of four different cycle lengths (2, 8, 4, trace length), single / periodic / sequence assertions with non-zero first steps and a periodic and a sequence assertion sharing one boundary-constraint group: the verifier's evaluation of the composition at the out-of-domain point agrees with the prover's committed polynomial (every honest proof is accepted after a serialization round trip), and every boundary constraint is enforced (a proof is refused when any single asserted value of the public inputs is changed); a proof whose context claims any other field modulus (lengths 0..254 bytes, the real modulus truncated or zero-extended, one flipped bit) is refused with an error - no panic, no acceptance",
             "NATIVE EXECUTION, not a proof: one AIR (4 columns, 4 constraints, 7 assertions) x trace lengths 16, 64, 128 x LDE blowup 8, 16 x f128, f128 quadratic, f64, f64 quadratic, f64 cubic; built without debug assertions (the prover's debug-only degree validation refuses periodic trace columns), with overflow checks",
             timeout=2400, debug_assertions=False)
